@@ -50,7 +50,7 @@ func enumName(r *core.Rand, o *QOpts) string {
 }
 
 var intLits = []string{"0", "-0", "1", "-1", "7", "42", "-12", "2147483647", "2147483648", "-2147483649", "99999999999999999999", "1000000"}
-var floatLits = []string{"1.0", "-0.5", "1e10", "1E-3", "6.02e+23", "0.0e0", "-1.5E+2", "0.1", "123.456e7", "1e999"}
+var floatLits = []string{"1.0", "-0.5", "1e10", "1E-3", "6.02e+23", "0.0e0", "-1.5E+2", "0.1", "123.456e7", "1e999", "1E3", "-2E+10", "-0.0"}
 
 var PlainStrings = []string{"", "a", "hello world", "x y", "A1", "text"}
 var HostileStrings = []string{
